@@ -14,12 +14,12 @@ every fuel and recursion stack).  That development is relative to a leaf specifi
 `LeafSpec ev G` (marker equality and leaf merging respect the leaf truth `ev` on leaves satisfying the
 invariant `G`; the concrete instance for `leafEval E` is C06/C07's subject) — the theorems below take the
 same `S : LeafSpec ev G` and `M.Good G m`, so they compose with C07 without further hypotheses.  What
-remains explicit: `OfVars` (the two `of` constructors mention no new variable) for `only_mentions`, and
-`ReduceCtx` (C11's `pyConstraint_exact` / `createNested_exact` through `parse_marker`, C12's `allows_all` /
+remains explicit: `ReparseNames` (one leaf-level fact about `_merge_python_version_single_markers`' `str.replace`
+rewriting) for `only_mentions`, and `ReduceCtx` (C11's `pyConstraint_exact` / `createNested_exact` through `parse_marker`, C12's `allows_all` /
 `allows_any` soundness at the interpreter) for `reduce_exact`.  The statements without hypotheses are kept as
 `C17_…_full_statement`.
 -/
-import PoetryVerif.Proofs.MarkerProj
+import PoetryVerif.Proofs.MarkerProjReduce
 import PoetryVerif.Proofs.MarkerAlgSoundOps
 
 set_option linter.unusedSimpArgs false
@@ -27,11 +27,6 @@ set_option linter.unusedVariables false
 
 namespace Poetry.C17
 open Poetry Poetry.Marker
-
-/-- `MultiMarker.of` / `MarkerUnion.of` mention no variable that their operands do not mention -/
-def OfVars : Prop :=
-  (∀ fuel stk ms r, multiOf fuel stk ms = .ok r → ∀ n ∈ M.vars r, n ∈ M.varsList ms) ∧
-  (∀ fuel stk ms r, unionOf fuel stk ms = .ok r → ∀ n ∈ M.vars r, n ∈ M.varsList ms)
 
 /-! ## example objects -/
 
@@ -48,11 +43,29 @@ def exEnv : Env :=
 
 /-! ## `only` -/
 
-/-- **`only` mentions only the requested variables** (given that the two `of` constructors mention no new
-variable). -/
-theorem only_mentions_partial (hV : OfVars) (S : List String) (m r : M) (h : M.only S m = .ok r) :
-    ∀ n ∈ M.vars r, n ∈ S :=
-  only_mentions_aux S hV.1 hV.2 m r h
+/-- **`only` mentions only the requested variables.**  Proved through C07's soundness induction instantiated
+with the invariant "named in `names`" (`Proofs/MarkerProjVars.lean`: every leaf a successful
+`_merge_single_markers` returns is named like an operand).  `hc`: the leaves' variables are spelt canonically
+(what `SingleMarker.__init__` stores; `leafSpec_canon` adds this to any invariant).  `HR : ReparseNames` is the
+one leaf-level fact taken as a hypothesis: the text `_merge_python_version_single_markers` rewrites with
+`str.replace` and re-parses is again a marker on `python_version` / `python_full_version`. -/
+theorem only_mentions_partial {ev : Leaf → Bool} {G : Leaf → Prop} (HR : ReparseNames) (S : LeafSpec ev G)
+    (hc : ∀ l, G l → Canon l) (names : List String) (m r : M) (hg : M.Good G m)
+    (h : M.only names m = .ok r) : ∀ n ∈ M.vars r, n ∈ names :=
+  only_mentions_thm HR S hc names m r hg h
+
+/-- the simplifier's constructors mention no variable their operands do not mention (the former hypothesis
+`OfVars`, now a theorem relative to `S` and `ReparseNames`) -/
+theorem of_mentions {ev : Leaf → Bool} {G : Leaf → Prop} (HR : ReparseNames) (S : LeafSpec ev G)
+    (hc : ∀ l, G l → Canon l) (fuel : Nat) (stk : Stack) (ms : List M) (r : M) (hg : M.GoodAll G ms) :
+    (multiOf fuel stk ms = .ok r → ∀ n ∈ M.vars r, n ∈ M.varsList ms) ∧
+    (unionOf fuel stk ms = .ok r → ∀ n ∈ M.vars r, n ∈ M.varsList ms) :=
+  of_vars HR S hc fuel stk ms r hg
+
+/-- `_merge_single_markers` itself: the leaves of a successful merge are named like an operand -/
+theorem merge_mentions (HR : ReparseNames) (N : List String) (l1 l2 : Leaf) (im : Bool) (r : M)
+    (h1 : Named N l1) (h2 : Named N l2) (h : mergeLeaves l1 l2 im = .ok (some r)) : M.Good (Named N) r :=
+  mergeLeaves_named HR N l1 l2 im r h1 h2 h
 
 /-- **`only` only weakens**: wherever the marker holds, its projection holds — for conjunctions *and*
 disjunctions, foreign leaves being replaced by the universal marker; the projection keeps the leaf
@@ -128,7 +141,7 @@ answers of `SingleMarker.reduce_by_python_constraint`; C07's `of` / `intersect` 
 `ReduceCtx ev G pc py` collects, at the environment under consideration (leaf truth `ev`, interpreter `py`
 with `pc.allows py`), the leaf specification and what is used from C11 (`pyConstraint_exact` for leaves and
 python-only markers, `createNested_exact` through `parse_marker`), C12 (`allows_all` yes / `allows_any` no
-soundness at `py`) and the variable bookkeeping of the `of` constructors. -/
+soundness at `py`), canonical spelling of the variables and `ReparseNames`. -/
 theorem reduce_exact_partial {ev : Leaf → Bool} {G : Leaf → Prop} (pc : VC) (py : Version)
     (C : ReduceCtx ev G pc py) (m r : M) (hg : M.Good G m) (h : M.reduce pc m = .ok r) :
     M.Good G r ∧ M.sem ev r = M.sem ev m :=
